@@ -929,7 +929,8 @@ fn write_code<'a, 'b: 'a>(writer: &mut impl ClassWrite, code: &'b Code, pool: &m
 
 						if low > high { bail!("`low` must be lower or equal to `high`"); }
 
-						let n = (high - low + 1) as usize;
+						let n = high.checked_sub(low).and_then(|x| x.checked_add(1))
+							.with_context(|| anyhow!("`low` ({low}) and `high` ({high}) span more than i32::MAX entries"))? as usize;
 						if table.len() != n {
 							bail!("`low` and `high` bounds don't span a rage of the size of the table: table has {}, high and low define {n}", table.len());
 						}
